@@ -294,12 +294,12 @@ impl Monitor for C18 {
     }
     fn gens(&self, tier: Tier) -> Vec<(&'static str, u64)> {
         match tier {
-            Tier::Quick => vec![("states_quick", 2 + 64 * 16), ("seeds", 3600), ("clock", 200), ("tensor_random", 20_000), ("huge_shuffle", 8)],
-            Tier::Thorough => vec![("states_all", (M - 1 + CHUNK - 1) / CHUNK), ("seeds", 60_000), ("clock", 1000), ("tensor_random", 200_000), ("huge_shuffle", 48)],
+            Tier::Quick => vec![("states_quick", 2 + 64 * 16), ("seeds", 3600), ("clock", 200), ("tensor_random", 20_000), ("huge_shuffle", 8), ("huge_random", 6)],
+            Tier::Thorough => vec![("states_all", (M - 1 + CHUNK - 1) / CHUNK), ("seeds", 60_000), ("clock", 1000), ("tensor_random", 200_000), ("huge_shuffle", 48), ("huge_random", 18)],
         }
     }
     fn rule(&self) -> &'static str {
-        "states_*: one case per chunk of seeds s; create(s) + one draw visits generator state 48271*s mod m (a bijection on [1,m-1]); per state: generate() over an 18-pair (min,max) panel (incl. two intervals whose width overflows f32 and six with a zero or negative upper bound or far from zero) must be finite and in [min,max], shuffle(len 1) and shuffle(len 2..6) must return a permutation without panicking, states whose unit draw is >= 0.999999 are swept over every len 1..200; distinct = number of distinct states visited. seeds: seed classes (0, 1, small, around m, multiples of m, 2^32, >3.8e14, u64::MAX, timestamps) x lengths 0..200: no panic, permutation (index vectors; vectors with repeated entries and vectors with entries of any magnitude - 64-bit hashes, usize::MAX - k, powers of two up to 2^63: same multiset), one generator object shuffling twelve vectors of changing length in turn, purity (same seed twice; same seed while a second generator draws and shuffles in between). clock: Tensor::random's possible clock seeds (subsec_micros in [0,1e6)) replayed through Generator for 256 draws. tensor_random: Tensor::random itself for every rank (extents 1..6; in every eighth request one extent, at any position, is 0: the empty nesting must come back as requested); every third request follows a request for a shape the library refuses (rank 5 / nested), which must not disturb it. huge_shuffle: index vectors of 2^24 + {1, 3, 4, 8, 12, 20, 36, 100} entries (positions a single-precision index cannot name exactly) and of 40 000 ... 5 000 000 entries, each shuffled in a child process on a thread with the default 2 MiB stack: no panic, no crash of the process (stack exhaustion, abort), every index exactly once."
+        "states_*: one case per chunk of seeds s; create(s) + one draw visits generator state 48271*s mod m (a bijection on [1,m-1]); per state: generate() over an 18-pair (min,max) panel (incl. two intervals whose width overflows f32 and six with a zero or negative upper bound or far from zero) must be finite and in [min,max], shuffle(len 1) and shuffle(len 2..6) must return a permutation without panicking, states whose unit draw is >= 0.999999 are swept over every len 1..200; distinct = number of distinct states visited. seeds: seed classes (0, 1, small, around m, multiples of m, 2^32, >3.8e14, u64::MAX, timestamps) x lengths 0..200: no panic, permutation (index vectors; vectors with repeated entries and vectors with entries of any magnitude - 64-bit hashes, usize::MAX - k, powers of two up to 2^63: same multiset), one generator object shuffling twelve vectors of changing length in turn, purity (same seed twice; same seed while a second generator draws and shuffles in between). clock: Tensor::random's possible clock seeds (subsec_micros in [0,1e6)) replayed through Generator for 256 draws. tensor_random: Tensor::random itself for every rank (extents 1..6; in every eighth request one extent, at any position, is 0: the empty nesting must come back as requested); every third request follows a request for a shape the library refuses (rank 5 / nested), which must not disturb it. huge_random: Tensor::random for 12 ... 34 million entries (ranks 1..4, beyond 2^24 and 2^25 entries): requested shape and nesting, every entry in the interval. huge_shuffle: index vectors of 2^24 + {1, 3, 4, 8, 12, 20, 36, 100} entries (positions a single-precision index cannot name exactly) and of 40 000 ... 5 000 000 entries, each shuffled in a child process on a thread with the default 2 MiB stack: no panic, no crash of the process (stack exhaustion, abort), every index exactly once."
     }
     fn assumptions(&self) -> Vec<&'static str> {
         vec![
@@ -489,6 +489,34 @@ impl Monitor for C18 {
                     ChildResult::Unknown(how) => {
                         out.count("long_shuffles_undecided", 1);
                         eprintln!("C18 huge_shuffle: child undecided: {}", how);
+                    }
+                }
+                out
+            }
+            "huge_random" => {
+                // requests of 12 ... 34 million entries (beyond 2^24 and 2^25): shape, nesting and
+                // range as for the small ones; only extreme values are kept, not the tensor
+                let shapes = [Shape::Double(3500, 3500), Shape::Single(20_000_003), Shape::Triple(3, 2100, 2100), Shape::Single((1 << 24) + 5), Shape::Quadruple(2, 2, 1800, 1801), Shape::Double(5800, 5900)];
+                let shape = shapes[(idx as usize) % shapes.len()].clone();
+                let dims = shape_dims(&shape);
+                let (lo, hi) = [(-1.0f32, 1.0f32), (0.0, 1.0), (-3.5, -0.25)][((idx / 6) % 3) as usize];
+                let mut out = Out::new(format!("random {:?} [{:e},{:e}]", dims, lo, hi));
+                out.count("random_tensors_of_more_than_10_million_entries", 1);
+                match guard(|| Tensor::random(shape.clone(), lo, hi)) {
+                    Err(m) => out.viol(&format!("tensor_random:huge:panic:{}", classify_panic(&m)), format!("Tensor::random({:?},{},{}) panicked: {}", dims, lo, hi, short(&m, 160)), J::Null),
+                    Ok(t) => {
+                        if shape_dims(&t.shape) != dims || !nested_as(&t, &dims) {
+                            out.viol("tensor_random:huge:shape", format!("requested {:?}, got shape {:?}", dims, shape_dims(&t.shape)), J::Null);
+                        }
+                        let vals = crate::lib_build::flat(&t);
+                        drop(t);
+                        if vals.len() != dims.iter().product::<usize>() {
+                            out.viol("tensor_random:huge:shape", format!("requested {:?} = {} entries, got {}", dims, dims.iter().product::<usize>(), vals.len()), J::Null);
+                        }
+                        if let Some(v) = vals.iter().find(|v| !(v.is_finite() && **v >= lo && **v <= hi)) {
+                            out.viol("tensor_random:huge:out-of-range", format!("Tensor::random({:?},{:e},{:e}) contains {}", dims, lo, hi, v), J::Null);
+                        }
+                        out.count("random_tensor_entries_checked", vals.len() as u64);
                     }
                 }
                 out
